@@ -1,0 +1,174 @@
+//go:build verif
+
+package patch
+
+// Verification hooks. This file is compiled only with -tags verif and only
+// adds code. It exposes, for an external harness, the intermediate products
+// of parsing a patch and of applying it to one file. It uses exported
+// identifiers of the internal packages only.
+
+import (
+	"bytes"
+	"go/ast"
+	"go/format"
+	"go/parser"
+	"go/token"
+
+	"github.com/uber-go/gopatch/internal/astdiff"
+	"github.com/uber-go/gopatch/internal/engine"
+	"github.com/uber-go/gopatch/internal/parse"
+	"github.com/uber-go/gopatch/internal/parse/section"
+	"github.com/uber-go/gopatch/internal/pgo/augment"
+	"golang.org/x/tools/imports"
+)
+
+// VerifProgram is a parsed and compiled patch file.
+type VerifProgram struct {
+	Fset   *token.FileSet
+	Parsed any // *parse.Program
+	Prog   *engine.Program
+}
+
+// VerifCompile parses and compiles a patch file into fset.
+func VerifCompile(fset *token.FileSet, name string, src []byte) (*VerifProgram, error) {
+	astProg, err := parse.Parse(fset, name, src)
+	if err != nil {
+		return nil, err
+	}
+	prog, err := engine.Compile(fset, astProg)
+	if err != nil {
+		return &VerifProgram{Fset: fset, Parsed: astProg}, err
+	}
+	return &VerifProgram{Fset: fset, Parsed: astProg, Prog: prog}, nil
+}
+
+// VerifSplit exposes section.Split.
+func VerifSplit(fset *token.FileSet, name string, src []byte) (any, error) {
+	return section.Split(fset, name, src)
+}
+
+// VerifAugment exposes augment.Augment.
+func VerifAugment(src []byte) (out []byte, augs any, adjs any, err error) {
+	return augment.Augment(src)
+}
+
+// VerifStep records what one change did to the file.
+type VerifStep struct {
+	Prog, Index int
+	Name        string
+	Comments    []string
+	Matched     bool
+	ReplaceErr  string
+	// Changed intervals reported by the changelog, as file offsets
+	// (-1 for an invalid position).
+	Intervals [][2]int
+	// Offsets and texts of all comments before and after the cleanup that
+	// follows the change.
+	CommentsBefore, CommentsAfter []VerifComment
+}
+
+// VerifComment is one comment of the file.
+type VerifComment struct {
+	Offset int
+	Text   string
+}
+
+// VerifTrace is the result of running programs against one file.
+type VerifTrace struct {
+	ParseErr  string
+	Steps     []VerifStep
+	Out       *ast.File // nil if nothing matched or a replacement failed
+	Formatted []byte    // format.Node of Out
+	FormatErr string
+	Processed []byte // imports.Process of Formatted
+	ProcErr   string
+}
+
+func verifComments(tf *token.File, groups []*ast.CommentGroup) []VerifComment {
+	var out []VerifComment
+	for _, g := range groups {
+		for _, c := range g.List {
+			out = append(out, VerifComment{Offset: tf.Offset(c.Pos()), Text: c.Text})
+		}
+	}
+	return out
+}
+
+// VerifRun applies every change of progs, in order, to src, performing the
+// same steps as Apply: match, replace, snapshot diff and position cleanup.
+// With abortOnError it stops at the first replacement error (as the command
+// line does); otherwise it carries on (as Apply does).
+func VerifRun(fset *token.FileSet, progs []*VerifProgram, filename string, src []byte, abortOnError bool) *VerifTrace {
+	tr := &VerifTrace{}
+	base, err := parser.ParseFile(fset, filename, src, parser.AllErrors|parser.ParseComments)
+	if err != nil {
+		tr.ParseErr = err.Error()
+		return tr
+	}
+	tf := fset.File(base.Pos())
+	off := func(p token.Pos) int {
+		if !p.IsValid() {
+			return -1
+		}
+		return tf.Offset(p)
+	}
+
+	snap := astdiff.Before(base, ast.NewCommentMap(fset, base, base.Comments))
+	var fout *ast.File
+	failed := false
+loop:
+	for pi, p := range progs {
+		for ci, c := range p.Prog.Changes {
+			st := VerifStep{Prog: pi, Index: ci, Name: c.Name, Comments: c.Comments}
+			d, ok := c.Match(base)
+			if !ok {
+				tr.Steps = append(tr.Steps, st)
+				continue
+			}
+			st.Matched = true
+			cl := engine.NewChangelog()
+			out, err := c.Replace(d, cl)
+			if err != nil {
+				st.ReplaceErr = err.Error()
+				tr.Steps = append(tr.Steps, st)
+				failed = true
+				if abortOnError {
+					break loop
+				}
+				continue
+			}
+			fout = out
+			snap = snap.Diff(fout, cl)
+			for _, iv := range cl.ChangedIntervals() {
+				st.Intervals = append(st.Intervals, [2]int{off(iv.Start), off(iv.End)})
+			}
+			st.CommentsBefore = verifComments(tf, fout.Comments)
+			cleanupFilePos(fset.File(fout.Pos()), cl, fout.Comments)
+			st.CommentsAfter = verifComments(tf, fout.Comments)
+			tr.Steps = append(tr.Steps, st)
+		}
+	}
+	if failed || fout == nil {
+		return tr
+	}
+	tr.Out = fout
+
+	var out bytes.Buffer
+	if err := format.Node(&out, fset, fout); err != nil {
+		tr.FormatErr = err.Error()
+		return tr
+	}
+	tr.Formatted = out.Bytes()
+	bs, err := imports.Process(filename, tr.Formatted, &imports.Options{
+		Comments:   true,
+		TabIndent:  true,
+		TabWidth:   8,
+		FormatOnly: true,
+	})
+	if err != nil {
+		tr.ProcErr = err.Error()
+		return tr
+	}
+	tr.Processed = bs
+	return tr
+}
